@@ -619,7 +619,13 @@ loop:
 	case <-col.done:
 	case <-time.After(2 * time.Second):
 		// the reader does not exit after Close: the generated cases report
-		// that (C17); the script's events can be compared regardless
+		// that (C17); the script's events can be compared regardless. The
+		// stale reader is made to leave before the next Watcher exists.
+		unix.KillReaders()
+		select {
+		case <-col.done:
+		case <-time.After(2 * time.Second):
+		}
 	}
 	for _, e := range evs {
 		n := e.Name
